@@ -12,6 +12,8 @@ pub mod c04;
 pub mod c05;
 pub mod c06;
 pub mod c07;
+pub mod c08;
+pub mod c09;
 pub mod c10;
 pub mod c11;
 pub mod c12;
@@ -84,6 +86,8 @@ pub fn check(prop: &str, cx: &Cx, rep: &mut Report) {
         "C05" => c05::check(cx, rep),
         "C06" => c06::check(cx, rep),
         "C07" => c07::check(cx, rep),
+        "C08" => c08::check(cx, rep),
+        "C09" => c09::check(cx, rep),
         "C10" => c10::check(cx, rep),
         "C11" => c11::check(cx, rep),
         "C12" => c12::check(cx, rep),
